@@ -135,6 +135,13 @@ def extract_params(raw):
     if not raw:
         return None
 
+    if isinstance(raw, bytes):
+        # a urlencoded body as it comes off the wire
+        try:
+            raw = raw.decode("utf-8")
+        except UnicodeDecodeError:
+            return None
+
     try:
         return url_decode(raw)
     except ValueError:
